@@ -669,8 +669,22 @@ def guard(repo, out):
     slots = _return_slots(repo)
     B = _Bind(g, rd, unpacks, slots)
 
-    def role(e, at):
-        if isinstance(e, ast.Name):
+    def is_sf_call(dv, d):
+        """dv is `<entry>['set_function'](..., <the assigned value>, ...)` (callee possibly through a local)."""
+        if not isinstance(dv, ast.Call):
+            return False
+        df = _deref(rd, d, dv.func)[0]
+        return isinstance(df, ast.Subscript) and astx.const_str(df.slice) == 'set_function' and \
+            any(role(x, d) in ('value', 'processed') for x in dv.args)
+
+    def role(e, at, depth=0):
+        if isinstance(e, ast.Name) and depth < 4:
+            ds = rd.defs(at, e.id)
+            sf = [d for d in ds if d is not g.entry and is_sf_call(B.def_value(d, e.id), d)]
+            if sf and all(d in sf or (d is g.entry and e.id == p_value) or
+                          (d is not g.entry and B.def_value(d, e.id) is not None and
+                           role(B.def_value(d, e.id), d, depth + 1) in ('value', 'processed')) for d in ds):
+                return 'processed'
             toks = B.name_tokens(e, at)
             if toks:
                 if all(t == ('param', p_name) or t[0] == 'alias' for t in toks):
@@ -711,6 +725,12 @@ def guard(repo, out):
                 if (r0, r1) == ('name', 'value'):
                     continue
                 okv = False
+                if r0 == 'name' and r1 == 'processed':
+                    out.bad(fn, V.ast, f'_assert_valid checks the result of set_function, not the value that was '
+                            f'assigned: a value violating the declaration is accepted whenever set_function maps '
+                            f'it to an admissible one (validate first, post-process afterwards)',
+                            key='validate-operands')
+                    continue
                 if r0 in ('value', 'entry', 'const', 'entry-field') or r1 in ('name', 'entry', 'const', 'entry-field'):
                     out.bad(fn, V.ast, f'_assert_valid is not applied to (option name, new value): got '
                             f'({astx.src(a0)} [{r0 or "?"}], {astx.src(a1)} [{r1 or "?"}])', key='validate-operands')
@@ -727,26 +747,14 @@ def guard(repo, out):
             out.unsure(fn, s_.ast, 'store form not recognised')
             okst = False
             continue
-        if isinstance(v, ast.Name) and v.id == p_value:
-            for d in rd.defs(s_, p_value):
-                if d is g.entry:
-                    continue
-                dv = d.ast.value if d.kind == 'stmt' and isinstance(d.ast, ast.Assign) else None
-                df = _deref(rd, d, dv.func)[0] if isinstance(dv, ast.Call) else None
-                if isinstance(df, ast.Subscript) and astx.const_str(df.slice) == 'set_function' and \
-                        any(role(x, d) == 'value' for x in dv.args):
-                    continue
-                okst = False
-                out.unsure(fn, d.ast, 'the value is rebound before it is stored')
+        r = role(v, s_)
+        if r in ('value', 'processed'):
+            continue
+        okst = False
+        if r in ('name', 'const', 'entry-field', 'entry'):
+            out.bad(fn, s_.ast, f'stores {astx.src(v)} instead of the validated value', key='stored-value')
         else:
-            r = role(v, s_)
-            okst = False
-            if r in ('name', 'const', 'entry-field'):
-                out.bad(fn, s_.ast, f'stores {astx.src(v)} instead of the validated value', key='stored-value')
-            elif r != 'value':
-                out.unsure(fn, s_.ast, 'stored expression not recognised')
-            else:
-                okst = True
+            out.unsure(fn, s_.ast, 'stored expression not recognised (the value is rebound before it is stored)')
     if okst:
         out.ok(fn, S.ast, 'the stored value is the validated argument (optionally through set_function)')
 
@@ -2140,4 +2148,27 @@ selftest(
     Mutant('setfunction-local-skips-validation', OD, "        self._assert_valid(name, value)\n\n        # General function test\n        if meta['set_function'] is not None:\n            value = meta['set_function'](meta, value)",
            "        set_function = meta['set_function']\n        if set_function is not None:\n            value = set_function(meta, value)\n        else:\n            self._assert_valid(name, value)",
            'C27.guard'),
+)
+
+
+# ---- round-2 seeds.  #1 (None skips every check) == Mutant 'valid-drop-allow-none', #2 (restore writes
+# self._dict[option]['val']) == Mutant 'who-restore-bypasses'; #3: set_function runs before validation
+_SF = ("        if meta['set_function'] is not None:\n"
+       "            value = meta['set_function'](meta, value)\n")
+
+selftest(
+    'C27',
+    Mutant('guard-set-function-before-validate', OD, _VAL + "\n        # General function test\n" + _SF,
+           "        # General function test\n" + _SF + "\n" + _VAL, 'C27.guard'),
+    Mutant('guard-set-function-local-before-validate', OD, _VAL + "\n        # General function test\n" + _SF,
+           "        setter = meta['set_function']\n        if setter is not None:\n            value = setter(meta, value)\n\n" + _VAL,
+           'C27.guard'),
+    Mutant('guard-validates-processed-copy', OD, _VAL + "\n        # General function test\n" + _SF,
+           "        new = value\n        if meta['set_function'] is not None:\n            new = meta['set_function'](meta, value)\n"
+           "        self._assert_valid(name, new)\n", 'C27.guard',
+           also=[(OD, "        meta['val'] = value\n", "        meta['val'] = new\n")]),
+    Twin('twin-processed-into-fresh-local', OD, _SF,
+         "        new = value\n        if meta['set_function'] is not None:\n            new = meta['set_function'](meta, value)\n",
+         also=[(OD, "        meta['val'] = value\n", "        meta['val'] = new\n")]),
+    Twin('twin-validated-copy', OD, _VAL, "        given = value\n        self._assert_valid(name, given)\n"),
 )
